@@ -189,7 +189,7 @@ func (r *Run) runSteps(t *Thread) (again bool) {
 	defer func() {
 		if e := recover(); e != nil {
 			if gp, ok := e.(goPanicSignal); ok {
-				t.panic = &panicState{val: gp.val, msg: gp.msg}
+				r.raisePanic(t, &panicState{val: gp.val, msg: gp.msg})
 				again = true
 				return
 			}
@@ -307,7 +307,7 @@ func (r *Run) runOne(t *Thread) {
 	defer func() {
 		if e := recover(); e != nil {
 			if gp, ok := e.(goPanicSignal); ok {
-				t.panic = &panicState{val: gp.val, msg: gp.msg}
+				r.raisePanic(t, &panicState{val: gp.val, msg: gp.msg})
 				return
 			}
 			panic(e)
